@@ -2,6 +2,7 @@
 import numpy as np
 from core import OracleResult
 import impl, gens
+from layers.pointwise import layer_pointwise
 from layers.kern import layer_prim_euler, layer_prim_euler2d, layer_prim_misc
 
 MODULE = 'Flowdyn.Props.C17'
@@ -21,7 +22,7 @@ TOL = 1e-10
 
 
 def layers(ctx):
-    return [layer_prim_euler, layer_prim_euler2d, layer_prim_misc]
+    return [layer_prim_euler, layer_prim_euler2d, layer_prim_misc, layer_pointwise]
 
 
 def defs(g, r, vx, vy, p):
